@@ -710,3 +710,28 @@ pub fn replay(out: &mut dyn Write, f: &[&str]) {
         _ => {}
     }
 }
+
+/// C17: complete traversal of the embedded opening book through the public iterator; every node is
+/// replayed on Board::standard() with move_mut (what the CLI asserts)
+pub fn book(out: &mut dyn Write) {
+    fn walk(out: &mut dyn Write, moves: chess_lookup::BookMoves, board: &Board, path: &mut Vec<String>, nodes: &mut u64, maxd: &mut usize) {
+        for mv in moves {
+            *nodes += 1;
+            let m = ChessMove { source: mv.source, dest: mv.dest, piece: None };
+            let mut b = *board;
+            let ok = b.move_mut(m);
+            path.push(format!("{}.{}", mv.source as u8, mv.dest as u8));
+            *maxd = (*maxd).max(path.len());
+            writeln!(out, "BK\t{}\t{}", path.join(" "), ok as u8).unwrap();
+            if ok {
+                walk(out, mv.children, &b, path, nodes, maxd);
+            }
+            path.pop();
+        }
+    }
+    let mut nodes = 0u64;
+    let mut maxd = 0usize;
+    walk(out, chess_lookup::INITIAL_BOOOK_MOVES, &Board::standard(), &mut Vec::new(), &mut nodes, &mut maxd);
+    let empty = chess_lookup::EMPTY_BOOK_MOVES.into_iter().count();
+    writeln!(out, "BKS\t{nodes}\t{maxd}\t{empty}").unwrap();
+}
